@@ -118,6 +118,14 @@ class Ref(object):
                 raise _Exc(["raise", tid, st["sid"]])
             elif op == "result":
                 raise _Result()
+            elif op == "syncref":
+                o = self.struct(["ref", st["tid"]], scope)
+                if o[0] == "ok":
+                    got.append(["sync", o[1]])
+                elif st["catch"]:
+                    got.append(["syncexc", o[1]])
+                else:
+                    raise _Exc(o[1])
             elif op == "itemvalue":
                 o = self.struct(st["item"], scope)
                 if o[0] == "ok":
